@@ -138,7 +138,8 @@ def chain(x, cycles, key):
         raw_before = raw_lists(o)
         y1 = C.save(o)
     except Exception as e:
-        return "unsavable:" + type(e).__name__, vs, None
+        # "for any loadable file X, let Y be the bytes obtained by loading X and saving it": Y must exist
+        return "unsavable", [C.viol("loaded-file-cannot-be-saved", dict(key, exc=type(e).__name__), {"error": repr(e)[:200]})], None
     s_after = S.snapshot(o)
     d = S.diff(s_before, s_after)
     if not d and raw_lists(o) != raw_before:
@@ -222,6 +223,19 @@ def describe_difference(a, b):
 
 def run_case(case):
     cycles = case.get("cycles", 3)
+    if "emptyslots" in case:
+        import rv.api as rv
+
+        layout, pats = case["emptyslots"]
+        p = rv.Project()
+        for x in layout:
+            p.attach_module(rv.m.Amplifier() if x else None)
+        for x in pats:
+            p.attach_pattern(rv.Pattern(tracks=1, lines=1) if x else None)
+        _st, vs, _h = chain(C.save(p), cycles, {"file": "empty-slots", "layout": "".join(map(str, layout)) + "/" + "".join(map(str, pats))})
+        for v in vs:
+            v["case"] = case
+        return vs
     if "built_history" in case:
         from checks import c07
 
@@ -347,6 +361,27 @@ def _task(t):
                     if len(r["violations"]) < 10:
                         r["violations"] += vs
         r["sample"] = {"built_history": [ops[lo], ops[-1]]}
+    elif kind == "emptyslots":
+        # projects whose module / pattern tables contain empty positions, also SEVERAL at the end
+        import rv.api as rv
+
+        for layout in ([1, 0], [1, 0, 0], [1, 0, 0, 0], [0, 1], [0, 0, 1, 0, 0], [0, 0], [1, 0, 1, 0, 0, 0]):
+            for pats in ([], [0, 0], [1, 0, 0]):
+                p = rv.Project()
+                for x in layout:
+                    p.attach_module(rv.m.Amplifier() if x else None) if x else p.attach_module(None)
+                for x in pats:
+                    p.attach_pattern(rv.Pattern(tracks=1, lines=1) if x else None)
+                data = C.save(p)
+                st, vs, h = chain(data, t[1], {"file": "empty-slots", "layout": "".join(map(str, layout)) + "/" + "".join(map(str, pats))})
+                for v in vs:
+                    v["case"] = {"emptyslots": [layout, pats], "cycles": t[1]}
+                r["evals"] += 1
+                C.count(r, st.split(":")[0])
+                if h:
+                    r["digests"].add(h)
+                r["violations"] += vs
+        r["sample"] = {"emptyslots": [[1, 0, 0], []]}
     elif kind == "legacy":
         from checks import c16
 
@@ -438,6 +473,7 @@ def run(ctx):
             tasks.append(("gen", k, ctx.seed, ("synth", "project") if ctx.thorough else ("synth",), cycles, lo, min(n, lo + 60)))
     tasks.append(("refnested", cycles, 5 if ctx.thorough else 3))
     tasks.append(("legacy", cycles))
+    tasks.append(("emptyslots", cycles))
     for lo in range(0, 27, 2):
         tasks.append(("built", 4 if ctx.thorough else 3, lo, lo + 2))
     from checks import c15, c16
@@ -463,7 +499,7 @@ def run(ctx):
         "exhaustive": True,
         "cycles": cycles,
         "initial_states": agg.evals, "loadable": ok, "unloadable": agg.counters.get("unloadable", 0),
-        "unsavable_after_load": agg.counters.get("unsavable", 0),
+        "loadable_but_unsavable": agg.counters.get("unsavable", 0),
         "fixture_mutants": nmut, "distinct_fixpoints": len(agg.digests),
         "samples": agg.samples,
         "rule": "open/save machine: every initial file X is driven through `cycles` load/save transitions; fixpoint must be reached at Y1",
